@@ -1,5 +1,5 @@
 (* C10 — PT-TEBD chain dynamics are exact where checkable, in every execution mode. *)
-From Coq Require Import Arith List Bool Permutation.
+From Coq Require Import Arith List Bool Permutation Lia.
 From OQ Require Import Model.Chain Proofs.ChainSpec Proofs.ChainTime.
 Import ListNotations.
 
@@ -42,6 +42,27 @@ Example clocks_after_one_step :
   fst (tebd_step unit tt 5 2 ([0; 0; 0; 0; 0], [tt; tt; tt; tt; tt; tt])) = [8; 8; 8; 8; 8] /\
   fst (tebd_step unit tt 2 1 ([3; 1], [tt; tt; tt])) = [11; 9].
 Proof. split; reflexivity. Qed.
+
+(* (2c) the same with states: the uncoupled chain factorises.  Every site carries a state and a one-parameter family
+   U i t (t in eighths of a time step) of maps with the semigroup law (the single-site propagators exp(t L_i); the law is
+   expm's contract and a premise here); the gate of the uncoupled chain on bond l applies U l (weight x fraction) and
+   U (l+1) (weight x fraction).  After one TEBD step site i is in the state U i 8 (its own dynamics for one full time
+   step) — every chain length >= 2, both Trotter orders, every family U, every initial product state *)
+Theorem uncoupled_factorises :
+  forall (St B : Type) (ds : St) (db : B) (n : nat) (U : nat -> nat -> St -> St),
+    (forall i a b s, U i (a + b) s = U i b (U i a s)) -> (forall i s, U i 0 s = s) ->
+    forall (order : nat) (s : cstate St B),
+      2 <= n -> order = 1 \/ order = 2 -> length (fst s) = n ->
+      forall i, i < n -> nth i (fst (prod_step St B ds db n U order s)) ds = U i 8 (nth i (fst s) ds).
+Proof. exact ChainTime.uncoupled_factorises. Qed.
+Print Assumptions uncoupled_factorises.
+
+(* premises met by a non-trivial family (site i moves with speed i+1), and the step computed *)
+Example uncoupled_example :
+  let U := fun i t s => s + (i + 1) * t in
+  (forall i a b s, U i (a + b) s = U i b (U i a s)) /\ (forall i s, U i 0 s = s) /\
+  fst (prod_step nat unit 0 tt 4 U 2 ([5; 0; 7; 1], [tt; tt; tt; tt; tt])) = [13; 16; 31; 33].
+Proof. cbv zeta. split; [intros; lia|]. split; [intros; lia|]. reflexivity. Qed.
 
 (* (3) execution modes.  A gate on (l, l+1) reads lambda_l, Gamma_l, lambda_{l+1}, Gamma_{l+1},
    lambda_{l+2} and writes Gamma_l, lambda_{l+1}, Gamma_{l+1}; for ANY gate function, chain state and
